@@ -32,7 +32,8 @@ ASSUMPTIONS = ['reference reader: readuntil returns up to the leftmost regex '
                'match end on the whole remaining stream',
                'IncompleteReadError before EOF is legal only when the '
                'buffered amount reached the receive window']
-REQUIRED = ['ops_checked', 'chunkings_compared', 'readuntil_checked',
+REQUIRED = ['at_eof_checked', 'ops_checked', 'chunkings_compared',
+            'readuntil_checked',
             'readexactly_checked', 'run_checked', 'redirect_checked',
             'drain_checked', 'signal_checked']
 BUDGET_S = {'quick': 240, 'thorough': 3000}
@@ -120,7 +121,7 @@ def gen_cases(tier, seed):
                     ops.append(['readuntil', _sep(rng, enc, sk), sk])
                 else:
                     ops.append(['readline'])
-            ops.append(['read', -1])
+            ops.append(['iter'] if rng.random() < 0.25 else ['read', -1])
             content = None
             lens = [o[1]['v'] for o in ops
                     if o[0] == 'readuntil' and o[2] == 'several_len']
@@ -141,6 +142,7 @@ def gen_cases(tier, seed):
                           'ops': ops,
                           'cseed': rng.randrange(1 << 30),
                           'err_too': rng.random() < 0.3,
+                          'err_late': rng.random() < 0.5,
                           'eof': rng.random() < 0.8})
         elif r < 0.80:
             window = rng.choice([16, 1024, 2097152])
@@ -320,6 +322,14 @@ async def _do_op(reader, op, enc):
             return ('ok', await reader.readexactly(op[1]))
         if op[0] == 'readline':
             return ('ok', await reader.readline())
+        if op[0] == 'iter':
+            # `async for line in reader` has to end at EOF
+            parts = []
+            async for line in reader:
+                parts.append(line)
+                if len(parts) > 100000 or (not line and len(parts) > 50):
+                    return ('exc', 'line iteration does not end at EOF')
+            return ('ok', ('' if enc else b'').join(parts))
         sep, _ = _compile(op[1], enc)
         if op[1]['k'] == 're':
             return ('ok', await reader.readuntil(sep, op[1]['m']))
@@ -382,15 +392,27 @@ def _reads_once(case, chunk, viol, mon, sizes=None):
                     await asyncio.sleep(0)
                 ss.chan.exit(0)
 
-            async def script(reader, key, ops):
+            # (only with room for everything: the buffer limit counts
+            # stdout and stderr together, an unread stderr would otherwise
+            # legitimately stall stdout)
+            late = bool(case.get('err_late')) and case['err_too'] and \
+                case['window'] >= 8 * (len(S) + len(E)) + 64
+
+            async def script(reader, key, ops, after=None):
+                if after is not None:
+                    await asyncio.gather(after, return_exceptions=True)
                 for op in ops:
                     res = await _do_op(reader, op, enc)
                     results[key].append(res)
+                if key == 'out':
+                    # drained to EOF while stderr may still hold data
+                    results['out_at_eof'] = reader.at_eof()
 
             st = asyncio.ensure_future(server())
             t1 = asyncio.ensure_future(script(r, 'out', case['ops']))
             t2 = asyncio.ensure_future(script(e, 'err', [['read', 3],
-                                                         ['read', -1]]))
+                                                         ['read', -1]],
+                                              t1 if late else None))
             for t in (st, t1, t2):
                 env.san.harness_tasks.add(t)
             done, pending = await asyncio.wait([st, t1, t2], timeout=300)
@@ -421,7 +443,24 @@ def _reads_once(case, chunk, viol, mon, sizes=None):
 
     # judge against the reference reader
     pos = 0
+    if case['eof'] and case['ops'][-1][0] in ('iter', 'read') and \
+            len(results['out']) == len(case['ops']) and \
+            results['out'][-1][0] == 'ok' and 'out_at_eof' in results:
+        mon['at_eof_checked'] += 1
+        if not results['out_at_eof']:
+            viol.append({'mechanism': 'at_eof_false_after_eof',
+                         'detail': f'chunk={chunk}: stdout was read to EOF '
+                                   f'but stdout.at_eof() is False (stderr '
+                                   f'unread={bool(E)} late='
+                                   f'{case.get("err_late")})'})
     for op, res in zip(case['ops'], results['out']):
+        if op[0] == 'iter':
+            if res == ('exc', 'line iteration does not end at EOF'):
+                viol.append({'mechanism': 'line_iteration_never_ends',
+                             'detail': f'chunk={chunk}: async for over '
+                                       f'stdout kept yielding after EOF'})
+                break
+            op = ['read', -1]
         overlap = op[0] == 'readuntil' and op[2] == 'overlap'
         # the stream session's buffer limit counts stdout and stderr together
         newpos, prob = model_check(op, res, S, pos, True,
